@@ -343,6 +343,7 @@ pub(crate) fn scenario<'a>(env: &'a Env, last_n: u64, depth: u64, growth: u64, s
     let s = &env.scripts;
     let regs: Vec<Reg> = match set {
         0 => vec![Reg { script: s.a.clone(), is_lock: true, start: 0 }],
+        3 => vec![Reg { script: s.t.clone(), is_lock: false, start: 0 }, Reg { script: s.b.clone(), is_lock: true, start: 0 }],
         _ => vec![Reg { script: s.a.clone(), is_lock: true, start: 0 }, Reg { script: s.b.clone(), is_lock: true, start: 0 }],
     };
     (
